@@ -679,7 +679,7 @@ where
 pub fn run(ctx: &Ctx, rep: &mut Report) {
     let e32 = f32::EPSILON as f64;
     let e64 = f64::EPSILON;
-    for c in ctx.case_ids("trace", 320, 40_000) {
+    for c in ctx.case_ids("trace", 320, 160_000) {
         let mut g = ctx.rng("trace", c);
         match c % 8 {
             0 | 2 | 4 => families::<f64, B64>(ctx, rep, c, &mut g, "NdArray<f64>", e64, false),
@@ -688,7 +688,7 @@ pub fn run(ctx: &Ctx, rep: &mut Report) {
             _ => families::<f32, B64>(ctx, rep, c, &mut g, "NdArray<f64>", e64, false),
         }
     }
-    for c in ctx.case_ids("tree", 1600, 160_000) {
+    for c in ctx.case_ids("tree", 1600, 640_000) {
         let mut g = ctx.rng("tree", c);
         match c % 4 {
             0 | 2 => families::<f64, B64>(ctx, rep, c, &mut g, "NdArray<f64>", e64, true),
@@ -696,7 +696,7 @@ pub fn run(ctx: &Ctx, rep: &mut Report) {
             _ => families::<f64, B32>(ctx, rep, c, &mut g, "NdArray<f32>", e32, true),
         }
     }
-    for c in ctx.case_ids("stop", 2000, 100_000) {
+    for c in ctx.case_ids("stop", 2000, 1_000_000) {
         let mut g = ctx.rng("stop", c);
         if c % 2 == 0 {
             small_fns::<B64>(rep, c, &mut g, e64, "NdArray<f64>");
